@@ -377,5 +377,25 @@ def run(ctx, res):
     for x in bad:
         res.finding("determinism|source|%s" % x, "a nondeterminism source (%s) is reachable from run: %s" % (x, " -> ".join(cg.path(k_run, x) or [])))
     res.inventory["bodies_reachable_from_run"] = len([x for x in reach if x in facts.bodies])
+    # host-time arithmetic must not be able to stop the run: Duration::from_secs_f64 panics on a negative or
+    # non-finite argument; its argument must be non-negative by construction (sign analysis of the def-use chain)
+    import floatsign
+    nfs = 0
+    for k in sorted(x for x in reach if x in facts.bodies):
+        b = facts.bodies[k]
+        gg = None
+        for bl in b["blocks"]:
+            t = bl["term"]
+            if t["k"] == "call" and (t["callee"]["path"] or "").startswith("std::time::Duration::from_secs_f"):
+                gg = gg or cfgmod.Cfg(b)
+                nfs += 1
+                okk, why, host = floatsign.analyse(facts, b, gg, t["args"][0])
+                res.ob(okk)
+                if not okk:
+                    res.finding("pacing|panic|negative-duration|%s" % k.split("::")[-1],
+                                "%s (line %s) converts a value to a Duration that is not non-negative by construction (%s)%s: "
+                                "Duration::from_secs_f64 panics on a negative value, so whether the program runs to its exit depends on the host"
+                                % (k, t["ln"], why, ", computed from host time" if host else ""))
+    res.inventory["float_to_duration_sites"] = nfs
     res.floor("traces of the generalised iteration", res.evaluations, 8)
     res.floor("bodies reachable from run", res.inventory["bodies_reachable_from_run"], 300)
